@@ -435,7 +435,7 @@ theorem resultOk_withPar (r : Location) (par expect : PKey) (hwf : wfLocation r 
   unfold resultOk
   rw [withPar_fst, withPar_snd]
   by_cases he : r = .empty
-  · subst he; simp [wfLocation, parLen, locationBlocks]
+  · subst he; simp [wfLocation, parLen]
   · simp only [he, if_false, hwf, Bool.true_and, Bool.and_eq_true]
     refine ⟨?_, ?_⟩
     · rw [parLen_eq]
